@@ -74,8 +74,15 @@ def run_attrs(ctx):
         lo, hi, words, sfx, _ = rf.SYNTAX[kw]
         ar = rf.ARITIES.get(kw, list(range(lo, hi + 1)))
         for n in ar:
-            for with_defs in ([False, True] if kw in DEFS_MAP else [False]):
-                toks, nums, ws = rf.instr_tokens(rng, kw, ['C1', 'O1', 'N1', 'C2'], arity=n)
+            variants = [(False, None, False)]
+            if kw in DEFS_MAP:
+                variants.append((True, None, False))
+            if sfx:     # restraints: with a residue number / class on the keyword, in lower case
+                variants += [(d, sf, low) for d in ([False, True] if kw in DEFS_MAP else [False]) for sf, low in (('2', False), ('TOL', False), (None, True), ('tol', True))]
+            for with_defs, suffix, lower in variants:
+                toks, nums, ws = rf.instr_tokens(rng, kw, ['C1', 'O1', 'N1', 'C2'], arity=n, suffix=suffix)
+                if lower:
+                    toks = [toks[0].lower()] + toks[1:]
                 if kw in ('AFIX',):
                     toks = [kw] + [rf.fmt_num(v) for v in ([43, 0.98, 10.5, -1.5][:n])]
                     nums = [43, 0.98, 10.5, -1.5][:n]
@@ -233,6 +240,25 @@ def run_special(ctx):
     case = {'instruction': 'PLAN 20 -> set(PLAN 35 1.5 2.5)', 'text': text}
     expect('PLAN text after set()', case, ['PLAN', '35', '1.5', '2.5'], str(shx.plan).split())
     expect('PLAN attributes after set()', case, [35, 1.5, 2.5], [shx.plan.npeaks, shx.plan.d1, shx.plan.d2])
+    # WGHT: the text denotes the six values whatever was given, set or assigned
+    import itertools
+    wd = [0.1, 0.0, 0.0, 0.0, 0.0, 0.33333]
+    pools = [[0.1, 0.0543], [0.0, 1.2345], [0.0, 0.1, -0.5], [0.0, 0.23333], [0.0, 0.7], [0.33333, 0.23333, 0.83333, 0.5]]
+    text, status, inner, shx, pos = read('WGHT 0.1')
+    for vals in itertools.product(*pools):
+        for how in ('set', 'assign'):
+            if how == 'set':
+                shx.wght.set('WGHT ' + ' '.join(str(v) for v in vals))
+            else:
+                for nm, v in zip('abcdef', vals):
+                    setattr(shx.wght, nm, v)
+            toks = str(shx.wght).split()
+            den = [float(x) for x in toks[1:]]
+            den = den + wd[len(den):]
+            case = {'instruction': 'WGHT %s via %s' % (' '.join(str(v) for v in vals), how), 'text': text}
+            if how == 'set':
+                expect('WGHT attributes after set()', case, list(vals), [getattr(shx.wght, nm) for nm in 'abcdef'])
+            expect('WGHT text does not denote the values of the object', case, list(vals), den)
     lines = HEAD + ['WGHT 0.1 0.2'] + ATOMS + TAIL + ['WGHT 0.0543 1.2345']
     text = '\n'.join(lines) + '\n'
     status, inner, shx = im.read_text(text, 'quiet')
